@@ -246,7 +246,7 @@ def run(ctx: Ctx) -> Outcome:
         viol.append(Violation(clause=r["clause"], case=m,
                               fields={"kind": m["kind"], "what": m["what"].split(":")[0], "zone": m["zone"], "dangling_T": trailing,
                                       "raised": e["out"].get("e", ""),
-                                      "long_duration": m["kind"] == "timedelta" and bool(re.search(r"days=-?\d{7,}", m["value"])),
+                                      "long_duration": m["kind"] == "timedelta" and bool(re.search(r"days=-?\d{6,}", m["value"])),
                                       "year_edge": any(y in m["value"] for y in ("(1, 1, 1", "(9999, 12, 31", "date(1, 1, 1)", "datetime.date(9999"))},
                               msg=f"{json.dumps(m)[:220]} out={json.dumps(e['out'])[:160]} expect={json.dumps(e.get('expect') or e.get('v'))[:160]}"))
     nontrivial = {(m["kind"], m["what"], m["value"], m["zone"]) for m in meta}
